@@ -229,9 +229,9 @@ U(id="vm.op.typecheck", entry="h_vo_typecheck", defines=["-DVO_TYPECHECK"],
   clause="JOP_TYPECHECK: continues at the next instruction iff the type of slot A is in the 16-bit type mask E, raises otherwise; no slot changes",
   mutants=[M("mask-shifted", "    if (!(janet_checktypes((X), (TS)))) { \\", "    if (!(janet_checktypes((X), (TS) << 1))) { \\", "not in the mask")])
 U(id="vm.op.error", entry="h_vo_error", defines=["-DVO_ERROR"],
-  clause="JOP_ERROR (error e): the fiber leaves the interpreter with JANET_SIGNAL_ERROR and the operand unchanged as the error value; frame committed at the instruction; no slot changes",
-  mutants=[M("wrong-signal", "vm_return(JANET_SIGNAL_ERROR, stack[A]);", "vm_return(JANET_SIGNAL_USER0, stack[A]);", "error signal"),
-           M("wrong-slot", "vm_return(JANET_SIGNAL_ERROR, stack[A]);", "vm_return(JANET_SIGNAL_ERROR, stack[B]);", "error value")])
+  clause="JOP_ERROR (error e): the fiber leaves the interpreter with JANET_SIGNAL_ERROR and the value of slot D (24-bit register, as the compiler emits it) unchanged as the error value; frame committed at the instruction; no slot changes",
+  mutants=[M("wrong-signal", "vm_return(JANET_SIGNAL_ERROR, stack[D]);", "vm_return(JANET_SIGNAL_USER0, stack[D]);", "error signal"),
+           M("wrong-slot", "vm_return(JANET_SIGNAL_ERROR, stack[D]);", "vm_return(JANET_SIGNAL_ERROR, stack[B]);", "error value")])
 U(id="vm.op.return", entry="h_vo_return", defines=["-DVO_RETURN"], link_keep={"fiber.c": ["janet_fiber_status", "janet_fiber_popframe"], "wrap.c": WRAP},
   assumes=["the frame has no captured environment (detaching is the contract of janet_fiber_popframe, C05 units)", "this unit covers the return from the frame the interpreter was entered with; the return into a calling Janet frame is vm.op.return.caller"],
   clause="JOP_RETURN / JOP_RETURN_NIL from the entrance frame: run_vm returns JANET_SIGNAL_OK with the value of slot D (24-bit register) resp. nil, unchanged, and the frame is popped; no slot changes",
